@@ -3,6 +3,7 @@ package main
 import (
 	"fmt"
 	"go/token"
+	"go/types"
 	"strings"
 
 	"golang.org/x/tools/go/ssa"
@@ -36,6 +37,17 @@ func c20Rules(p *Prog, unmarshals map[ssa.CallInstruction]string) *RuleSet {
 			varIs("var=devport", devPort), varIs("var=ownerport", ownPort),
 			AtomDef{Name: "is-device", Doc: "the role flag is true", Edge: func(m *Matcher, pd Pred, holds bool) bool { return pd.Kind == "bool" && holds && roleParam(pd.X) }},
 			AtomDef{Name: "not-device", Doc: "the role flag is false", Edge: func(m *Matcher, pd Pred, holds bool) bool { return pd.Kind == "bool" && !holds && roleParam(pd.X) }},
+			AtomDef{Name: "str-empty", Doc: "a string value was found empty", EdgeDyn: func(m *Matcher, pd Pred, holds bool) []Atom {
+				if pd.Kind != "eq" || !holds {
+					return nil
+				}
+				for _, pr := range [][2]ssa.Value{{pd.X, pd.Y}, {pd.Y, pd.X}} {
+					if c, ok := pr[1].(*ssa.Const); ok && c.Value != nil && c.Value.ExactString() == `""` {
+						return []Atom{Atom("v:empty:" + pr[0].Name())}
+					}
+				}
+				return nil
+			}},
 			notNil("dir-nonnil", "the per-directive parser returned a directive", func(m *Matcher, v ssa.Value) bool {
 				_, _, call := m.ResultOf(v)
 				return call != nil && m.P.body(call.Common().StaticCallee()) != nil
@@ -154,6 +166,51 @@ func checkC20(c *Ctx, p *Prog, r *Result) {
 					o.Detail = r.explain(f, root, b, o.Missing)
 				}
 				r.add(o)
+			}
+		}
+	}
+
+	// (1b) default ports never override an explicit one
+	r.rule("C20.default-port-guarded", "in the URL interpreter a constant default port is assigned to the port variable only where that variable was found empty (so an explicit port instruction wins regardless of instruction order)")
+	r.floor("C20.default-port-guarded", 3)
+	for fn := range region {
+		k := 0
+		for _, b := range fn.Blocks {
+			for _, in := range b.Instrs {
+				phi, ok := in.(*ssa.Phi)
+				if !ok {
+					break
+				}
+				if bt, ok := phi.Type().Underlying().(*types.Basic); !ok || bt.Kind() != types.String {
+					continue
+				}
+				for i, e := range phi.Edges {
+					c, ok := e.(*ssa.Const)
+					if !ok || c.Value == nil {
+						continue
+					}
+					sv, _ := unquote(c.Value.ExactString())
+					if sv == "" || strings.Trim(sv, "0123456789") != "" {
+						continue
+					}
+					k++
+					pred := b.Preds[i]
+					st, reached := f.edgeSt[[2]*ssa.BasicBlock{pred, b}]
+					okv := false
+					if reached {
+						st = f.close(st)
+						// the variable tested empty is the one being defaulted: some other edge of this phi (or the phi itself) carries it
+						for _, o := range phi.Edges {
+							if st.Has(Atom("v:empty:" + o.Name())) {
+								okv = true
+							}
+						}
+						if st.Has(Atom("v:empty:" + phi.Name())) {
+							okv = true
+						}
+					}
+					r.table(p, "C20.default-port-guarded", fmt.Sprintf("default %q #%d in %s", sv, k, p.FuncName(fn)), p.instrPos(pred.Instrs[len(pred.Instrs)-1]), okv, "assigned only under <port variable> == \"\"")
+				}
 			}
 		}
 	}
